@@ -30,9 +30,14 @@ ODD = ["\u0000", "\u0001", "\u001b", "\u007f", "\u0085", " ", "é", "λ", "€"
 
 
 def random_text(rng, alphabet, maxlen=12):
-    kind = rng.randint(0, 5)
+    kind = rng.randint(0, 6)
     if kind == 0:
         return ""
+    if kind == 6:
+        # ONE long word of letters of 1-4 bytes (a token of more than 50 bytes whose tail is cut inside a character
+        # by any byte-offset arithmetic), possibly followed by something else
+        w = "".join(rng.choice("aλॐ𝒳bé") for _ in range(rng.randint(18, 80)))
+        return w + rng.choice(["", " ", " " + rng.choice(alphabet), "€"])
     if kind == 1:
         return "".join(rng.choice(alphabet) for _ in range(rng.randint(1, maxlen)))
     if kind == 2:
